@@ -152,6 +152,9 @@ def receivers(cls, name):
                     t0 = T_("t", alias="ta")      # aliased: references are printed qualified, so a replacement is visible
                     return qc.into(t0).columns("a", "b").insert(fn.Coalesce(t0.x, 1), t0.y + 1).insert(2, fn.Max(t0.z))
                 R.append(insv)
+                # a WITH body that reads the table being replaced (the Cte objects are shared between a builder and its copies)
+                R.append(lambda qc=qc: qc.with_(qc.from_(T_("t", alias="ta")).select("x").where(T_("t", alias="ta").y == 1), "c0")
+                         .from_(T_("t", alias="ta")).select("a"))
                 R.append(lambda qc=qc: upd(qc))
                 R.append(lambda qc=qc: dele(qc))
                 R.append(lambda qc=qc: ins(qc, True))
